@@ -371,3 +371,10 @@ Proof.
   unfold topic_of_path. destruct p as [|a r]; [reflexivity|]. destruct (is_slash a); [|reflexivity].
   destruct (drop_while cls_prefix r) as [|b t]; [reflexivity|]. destruct (is_slash b); [apply G|reflexivity].
 Qed.
+
+Lemma refused_then_next cfg s r o :
+  refusal (snd (handle true cfg s r)) -> step cfg (fst (step cfg s (OReq r))) o = step cfg s o.
+Proof.
+  intros H. apply handle_refusal_frame in H. unfold step at 2. unfold step_gen.
+  destruct (handle true cfg s r) as [s' x]. cbn [fst] in *. subst s'. reflexivity.
+Qed.
